@@ -583,6 +583,39 @@ Proof.
     split; [vm_compute; reflexivity|]. split; [apply memb_true_in; vm_compute; reflexivity|]. vm_conj.
 Qed.
 
+(** Known finding L0IdReusedAfterCompactionAndRestart.  Capacity 1, k = 2: segments 0
+    and 1 are merged into 10000 and reclaimed (guarded history, [batch_ok] batch);
+    crash and restart: [restart] seeds the level-0 allocator from the directory
+    names that still exist ([alloc0_from [10000] = 0]), so the next flush publishes
+    the name 0 again with different rows. *)
+Definition l0r1 : list clabel := seg1 0 ++ seg1 1.
+Definition l0r2 : list clabel := whole (mkBatch 10000 [0; 1] [0]) [0; 1].
+Definition l0r3 : list clabel := [CBase LCrash; CBase LRestart] ++ seg1 2.
+
+Lemma l0_reuse_after_restart_refuted :
+  exists c k l1 l2 l3 i,
+    let s1 := crun (init c) l1 in
+    let s2 := crun (init c) (l1 ++ l2) in
+    let s3 := crun (init c) (l1 ++ l2 ++ l3) in
+    hist_ok (init c) (l1 ++ l2) = true /\ policy_ok k (init c) (l1 ++ l2) = true /\
+    l3 = [CBase LCrash; CBase LRestart] ++ seg1 2 /\
+    hist_ok (crun (init c) (l1 ++ l2 ++ [CBase LCrash; CBase LRestart])) (seg1 2) = true /\
+    In i (live s1) /\ rows_of (dirs s1) i = [mkEv 0 0 0] /\
+    ~ In i (live s2) /\ ~ has_dir (dirs s2) i /\ alloc0 s2 = 2 /\
+    alloc0 (crun (init c) (l1 ++ l2 ++ [CBase LCrash; CBase LRestart])) = 0 /\
+    In i (live s3) /\ In i (index_labels (index s3)) /\ rows_of (dirs s3) i = [mkEv 2 0 0].
+Proof.
+  exists 1, 2, l0r1, l0r2, l0r3, 0. cbv zeta.
+  split; [vm_compute; reflexivity|]. split; [vm_compute; reflexivity|]. split; [reflexivity|].
+  split; [vm_compute; reflexivity|].
+  split; [apply memb_true_in; vm_compute; reflexivity|]. split; [vm_compute; reflexivity|].
+  split; [apply memb_false_notin; vm_compute; reflexivity|].
+  split; [apply has_dirb_false_not; vm_compute; reflexivity|].
+  split; [vm_compute; reflexivity|]. split; [vm_compute; reflexivity|].
+  split; [apply memb_true_in; vm_compute; reflexivity|]. split; [apply memb_true_in; vm_compute; reflexivity|].
+  vm_compute; reflexivity.
+Qed.
+
 (** The guard of [CReclaim] (no queued flush job refers to the directory) is needed
     in the model: a [batch_ok] batch that drains a segment whose flush job is between
     [FwIndex] and [FwPublish], followed by [FwPublish], leaves a live id without a
